@@ -570,6 +570,30 @@ pub fn mutants(base: &ExecDoc, sch: &Sch) -> Vec<(&'static str, String, ExecDoc)
             }
         }
     }
+    // ---- fragments that no operation reaches and that spread each other in a cycle (and a fault inside them)
+    for (tag, extra) in [
+        ("unreached-self-cycle", vec![("Ua", vec!["Ua"], None)]),
+        ("unreached-cycle-of-two", vec![("Ua", vec!["Ub"], None), ("Ub", vec!["Ua"], None)]),
+        ("unreached-cycle-of-three", vec![("Ua", vec!["Ub"], None), ("Ub", vec!["Uc"], None), ("Uc", vec!["Ua"], None)]),
+    ] {
+        let mut d = base.clone();
+        for (name, spreads, _) in &extra {
+            let mut items = vec![typename()];
+            for sp in spreads {
+                items.push(Sel::Spread { p: p0(), name: nm(sp), dirs: vec![] });
+            }
+            d.defs.push(ExecDef::Frag { p: p0(), name: nm(name), cond: nm("User"), dirs: vec![], sel: selset(items) });
+        }
+        let _: &Vec<(&str, Vec<&str>, Option<()>)> = &extra;
+        add("spread.cycle", vec![(tag.to_string(), d)]);
+    }
+    {
+        // an unknown field inside unreached fragments that spread each other (no cycle through the faulty one is needed)
+        let mut d = base.clone();
+        d.defs.push(ExecDef::Frag { p: p0(), name: nm("Ua"), cond: nm("User"), dirs: vec![], sel: selset(vec![typename(), Sel::Spread { p: p0(), name: nm("Ub"), dirs: vec![] }]) });
+        d.defs.push(ExecDef::Frag { p: p0(), name: nm("Ub"), cond: nm("User"), dirs: vec![], sel: selset(vec![field("nope")]) });
+        add("field.exists", vec![("inside-unreached-fragment-spread-by-unreached-fragment".into(), d)]);
+    }
     // ---- a second operation that reaches the same fragments but defines none of the variables they use
     if let ExecDef::Op { kind, vars: Some(_), sel, .. } = &base.defs[first_op] {
         let mut d = base.clone();
